@@ -181,6 +181,25 @@ fn self_exe() -> PathBuf {
     std::env::current_exe().expect("current_exe")
 }
 
+/// The worker binary of a build: "release" = this binary; "arith" = the same sources compiled with
+/// integer-overflow checks (profile `arith`), i.e. the arithmetic of a dev / `cargo test` artefact.
+pub fn exe_for(build: &str) -> Option<PathBuf> {
+    if build != "arith" {
+        return Some(self_exe());
+    }
+    if let Ok(p) = std::env::var("AXSIM_ARITH_BIN") {
+        let p = PathBuf::from(p);
+        return if p.exists() { Some(p) } else { None };
+    }
+    let me = self_exe();
+    let cand = me.parent()?.parent()?.join("arith").join("axsim");
+    if cand.exists() {
+        Some(cand)
+    } else {
+        None
+    }
+}
+
 fn classify_death(status: &std::process::ExitStatus, stderr: &str, timed_out: bool) -> String {
     use std::os::unix::process::ExitStatusExt;
     if timed_out {
@@ -206,8 +225,8 @@ struct ChildOut {
     timed_out: bool,
 }
 
-fn run_child(args: &[String], stdin_data: Option<&str>, timeout: Duration) -> Option<ChildOut> {
-    let mut child = Command::new(self_exe())
+fn run_child(build: &str, args: &[String], stdin_data: Option<&str>, timeout: Duration) -> Option<ChildOut> {
+    let mut child = Command::new(exe_for(build)?)
         .args(args)
         .stdin(if stdin_data.is_some() { Stdio::piped() } else { Stdio::null() })
         .stdout(Stdio::piped())
@@ -258,9 +277,9 @@ fn run_child(args: &[String], stdin_data: Option<&str>, timeout: Duration) -> Op
 }
 
 /// Evaluate one scenario in a fresh child process; crashes of the child become deviations.
-pub fn eval_in_child(prop: &str, sc: &Value, timeout: Duration) -> Result<(Vec<Deviation>, Vec<String>), String> {
+pub fn eval_in_child(build: &str, prop: &str, sc: &Value, timeout: Duration) -> Result<(Vec<Deviation>, Vec<String>), String> {
     let data = serde_json::to_string(sc).map_err(|e| e.to_string())?;
-    let out = run_child(&["exec-one".to_string(), prop.to_string()], Some(&data), timeout)
+    let out = run_child(build, &["exec-one".to_string(), prop.to_string()], Some(&data), timeout)
         .ok_or_else(|| "cannot spawn child".to_string())?;
     let mut context = String::new();
     for l in out.stdout.lines() {
@@ -302,7 +321,7 @@ fn tail(s: &str, n: usize) -> String {
 }
 
 /// Run one chunk in a worker process; on abnormal death re-run it carefully to pin the crash on a run.
-fn run_chunk(prop: &str, thorough: bool, seed: u64, from: u64, to: u64) -> ChunkResult {
+fn run_chunk(build: &str, prop: &str, thorough: bool, seed: u64, from: u64, to: u64) -> ChunkResult {
     let args: Vec<String> = vec![
         "worker".into(),
         prop.into(),
@@ -313,7 +332,7 @@ fn run_chunk(prop: &str, thorough: bool, seed: u64, from: u64, to: u64) -> Chunk
         "fast".into(),
     ];
     let fast_limit = if HANGS.load(Ordering::SeqCst) >= MAX_HANGS_PINNED { 25 } else { 90 };
-    let fast = run_child(&args, None, Duration::from_secs(fast_limit));
+    let fast = run_child(build, &args, None, Duration::from_secs(fast_limit));
     let fast_timed_out = fast.as_ref().map(|o| o.timed_out).unwrap_or(false);
     if let Some(out) = fast {
         if out.status.success() {
@@ -342,7 +361,7 @@ fn run_chunk(prop: &str, thorough: bool, seed: u64, from: u64, to: u64) -> Chunk
             total.harness_errors.push("careful re-run did not make progress".into());
             break;
         }
-        let (done_to, crashed) = run_careful(prop, thorough, seed, next, to, &mut total);
+        let (done_to, crashed) = run_careful(build, prop, thorough, seed, next, to, &mut total);
         next = done_to;
         if !crashed {
             break;
@@ -356,7 +375,7 @@ fn run_chunk(prop: &str, thorough: bool, seed: u64, from: u64, to: u64) -> Chunk
 }
 
 /// Careful worker: announces every run before it starts. Returns (next index to run, crashed?).
-fn run_careful(prop: &str, thorough: bool, seed: u64, from: u64, to: u64, total: &mut ChunkResult) -> (u64, bool) {
+fn run_careful(build: &str, prop: &str, thorough: bool, seed: u64, from: u64, to: u64, total: &mut ChunkResult) -> (u64, bool) {
     let args: Vec<String> = vec![
         "worker".into(),
         prop.into(),
@@ -366,7 +385,7 @@ fn run_careful(prop: &str, thorough: bool, seed: u64, from: u64, to: u64, total:
         to.to_string(),
         "careful".into(),
     ];
-    let mut child = match Command::new(self_exe()).args(&args).stdin(Stdio::null()).stdout(Stdio::piped()).stderr(Stdio::piped()).spawn() {
+    let mut child = match Command::new(exe_for(build).unwrap_or_else(self_exe)).args(&args).stdin(Stdio::null()).stdout(Stdio::piped()).stderr(Stdio::piped()).spawn() {
         Ok(c) => c,
         Err(e) => {
             total.harness_errors.push(format!("cannot spawn careful worker: {e}"));
@@ -515,9 +534,9 @@ fn is_crash_sig(sig: &str) -> bool {
     sig.contains("|crash|")
 }
 
-fn reproduces(eng: &dyn Engine, prop: &str, sc: &Value, sig: &str, in_child: bool) -> bool {
-    if in_child {
-        match eval_in_child(prop, sc, Duration::from_secs(20)) {
+fn reproduces(build: &str, eng: &dyn Engine, prop: &str, sc: &Value, sig: &str, in_child: bool) -> bool {
+    if in_child || build != "release" {
+        match eval_in_child(build, prop, sc, Duration::from_secs(20)) {
             Ok((devs, _)) => devs.iter().any(|d| d.sig == sig),
             Err(_) => false,
         }
@@ -527,11 +546,11 @@ fn reproduces(eng: &dyn Engine, prop: &str, sc: &Value, sig: &str, in_child: boo
     }
 }
 
-pub fn minimise(eng: &dyn Engine, prop: &str, sc: &Value, sig: &str) -> (Value, u64) {
-    let in_child = is_crash_sig(sig);
+pub fn minimise(build: &str, eng: &dyn Engine, prop: &str, sc: &Value, sig: &str) -> (Value, u64) {
+    let in_child = is_crash_sig(sig) || build != "release";
     let mut cur = sc.clone();
     let mut evals: u64 = 0;
-    let max_evals: u64 = if in_child { if sig.ends_with("hang_watchdog") { 12 } else { 120 } } else { 3000 };
+    let max_evals: u64 = if build != "release" && !is_crash_sig(sig) { 400 } else if in_child { if sig.ends_with("hang_watchdog") { 12 } else { 120 } } else { 3000 };
     let deadline = Instant::now() + Duration::from_secs(if in_child { 120 } else { 45 });
     loop {
         let mut progressed = false;
@@ -540,7 +559,7 @@ pub fn minimise(eng: &dyn Engine, prop: &str, sc: &Value, sig: &str) -> (Value, 
                 return (cur, evals);
             }
             evals += 1;
-            if reproduces(eng, prop, &cand, sig, in_child) {
+            if reproduces(build, eng, prop, &cand, sig, in_child) {
                 cur = cand;
                 progressed = true;
                 break;
@@ -577,15 +596,20 @@ pub fn replay_main(path: &str, verbose: bool) -> i32 {
         eprintln!("axsim: unknown property in replay file");
         return 2;
     }
+    let build = v["build"].as_str().unwrap_or("release").to_string();
+    if exe_for(&build).is_none() {
+        eprintln!("axsim: the replay needs the `{build}` build of the simulator, which is not there (./check build)");
+        return 2;
+    }
     if verbose {
         // run in-process with the full event log on stderr (may die with the scenario if it aborts)
         let data = serde_json::to_string(&v["scenario"]).unwrap();
-        let out = run_child(&["exec-one".to_string(), prop.clone(), "verbose".to_string()], Some(&data), Duration::from_secs(120));
+        let out = run_child(&build, &["exec-one".to_string(), prop.clone(), "verbose".to_string()], Some(&data), Duration::from_secs(120));
         if let Some(o) = out {
             eprintln!("{}", o.stderr);
         }
     }
-    match eval_in_child(&prop, &v["scenario"], Duration::from_secs(120)) {
+    match eval_in_child(&build, &prop, &v["scenario"], Duration::from_secs(120)) {
         Ok((devs, he)) => {
             for d in devs.iter() {
                 println!("deviation: {} :: {}", d.sig, d.detail);
@@ -654,12 +678,21 @@ pub fn check_main(prop: &str, thorough: bool, seed: u64) -> i32 {
 
     // audit: re-run a sample of chunks in separate processes and compare event-log hashes
     let audit_every = (chunks.len() / 4).max(1);
-    let mut jobs: Vec<(usize, bool)> = (0..chunks.len()).map(|i| (i, false)).collect();
+    // job kinds: 0 = main run, 1 = determinism audit (same chunk, another process), 2 = the same chunk
+    // executed by the overflow-checks build of the simulator (second phase of every check)
+    let mut jobs: Vec<(usize, u8)> = (0..chunks.len()).map(|i| (i, 0u8)).collect();
     for i in (0..chunks.len()).step_by(audit_every) {
-        jobs.push((i, true));
+        jobs.push((i, 1));
+    }
+    let arith_available = exe_for("arith").is_some();
+    let arith_step: usize = std::env::var("VERIF_ARITH_EVERY").ok().and_then(|s| s.parse().ok()).unwrap_or(if thorough { 4 } else { 1 });
+    if arith_available && arith_step > 0 {
+        for i in (0..chunks.len()).step_by(arith_step) {
+            jobs.push((i, 2));
+        }
     }
     let next = Arc::new(AtomicUsize::new(0));
-    let results: Arc<Mutex<Vec<(usize, bool, ChunkResult)>>> = Arc::new(Mutex::new(Vec::new()));
+    let results: Arc<Mutex<Vec<(usize, u8, ChunkResult)>>> = Arc::new(Mutex::new(Vec::new()));
     let jobs = Arc::new(jobs);
     let chunks = Arc::new(chunks);
     let mut handles = Vec::new();
@@ -674,26 +707,29 @@ pub fn check_main(prop: &str, thorough: bool, seed: u64) -> i32 {
             if j >= jobs.len() {
                 break;
             }
-            let (ci, audit) = jobs[j];
+            let (ci, kind) = jobs[j];
             let (from, to) = chunks[ci];
-            let r = run_chunk(&prop, thorough, seed, from, to);
-            results.lock().unwrap().push((ci, audit, r));
+            let r = run_chunk(if kind == 2 { "arith" } else { "release" }, &prop, thorough, seed, from, to);
+            results.lock().unwrap().push((ci, kind, r));
         }));
     }
     for h in handles {
         let _ = h.join();
     }
     let mut results = Arc::try_unwrap(results).unwrap().into_inner().unwrap();
-    results.sort_by_key(|(ci, audit, _)| (*ci, *audit));
+    results.sort_by_key(|(ci, kind, _)| (*ci, *kind));
 
     let mut agg = ChunkResult::default();
+    let mut arith = ChunkResult::default();
     let mut main_hash: BTreeMap<usize, (u64, Vec<String>)> = BTreeMap::new();
     let mut audit_reruns = 0u64;
     let mut audit_mismatch = 0u64;
-    for (ci, audit, r) in results {
+    for (ci, kind, r) in results {
         let mut sigs: Vec<String> = r.devs.iter().map(|(i, d)| format!("{i}:{}", d.sig)).collect();
         sigs.sort();
-        if !audit {
+        if kind == 2 {
+            arith.merge(r);
+        } else if kind == 0 {
             main_hash.insert(ci, (r.log_hash, sigs));
             agg.merge(r);
         } else {
@@ -709,18 +745,30 @@ pub fn check_main(prop: &str, thorough: bool, seed: u64) -> i32 {
     let known = load_known();
     let mut known_hit: BTreeMap<String, (u64, String)> = BTreeMap::new();
     let mut unknown: BTreeMap<String, Vec<(u64, Deviation)>> = BTreeMap::new();
-    for (idx, d) in agg.devs.iter() {
-        if d.prop != prop {
-            continue;
-        }
-        if let Some(k) = known_for(&known, prop, &d.sig) {
-            let e = known_hit.entry(k.signature.clone()).or_insert((0, k.what_fails.clone()));
-            e.0 += 1;
-        } else {
-            unknown.entry(d.sig.clone()).or_default().push((*idx, d.clone()));
+    // which build first showed a signature: the release build if it shows it at all
+    let mut sig_build: BTreeMap<String, &'static str> = BTreeMap::new();
+    for (build, list) in [("release", &agg.devs), ("arith", &arith.devs)] {
+        for (idx, d) in list.iter() {
+            if d.prop != prop {
+                continue;
+            }
+            if build == "arith" && sig_build.get(&d.sig) == Some(&"release") {
+                continue; // already counted in the main phase
+            }
+            sig_build.entry(d.sig.clone()).or_insert(build);
+            if let Some(k) = known_for(&known, prop, &d.sig) {
+                let e = known_hit.entry(k.signature.clone()).or_insert((0, k.what_fails.clone()));
+                e.0 += 1;
+            } else {
+                unknown.entry(d.sig.clone()).or_default().push((*idx, d.clone()));
+            }
         }
     }
     let mut harness_errors = agg.harness_errors.clone();
+    harness_errors.extend(arith.harness_errors.iter().map(|e| format!("[overflow-checks build] {e}")));
+    if !arith_available {
+        harness_errors.push("the overflow-checks build of the simulator (sim/target/arith/axsim) is missing: run ./check build".to_string());
+    }
     if audit_mismatch > 0 {
         if prop == "C20" {
             unknown.entry("C20|cross_process|event_log".to_string()).or_default().push((
@@ -778,18 +826,19 @@ pub fn check_main(prop: &str, thorough: bool, seed: u64) -> i32 {
             continue;
         }
         let sc = eng.gen(prop, thorough, seed, *idx);
+        let build: &str = sig_build.get(sig.as_str()).copied().unwrap_or("release");
         // the original must reproduce in a fresh process before anything is reported
-        let first = eval_in_child(prop, &sc, Duration::from_secs(20));
+        let first = eval_in_child(build, prop, &sc, Duration::from_secs(20));
         let repro = matches!(&first, Ok((devs, _)) if devs.iter().any(|x| &x.sig == sig));
         if !repro {
             harness_errors.push(format!("deviation {sig} of run {idx} did not reproduce in a fresh process"));
             continue;
         }
-        let (min_sc, evals) = minimise(eng, prop, &sc, sig);
-        let final_sc = if reproduces(eng, prop, &min_sc, sig, true) { min_sc } else { sc.clone() };
+        let (min_sc, evals) = minimise(build, eng, prop, &sc, sig);
+        let final_sc = if reproduces(build, eng, prop, &min_sc, sig, true) { min_sc } else { sc.clone() };
         let path = replay_dir.join(sig_file_name(prop, sig));
         let file = json!({
-            "format": 1, "property": prop, "engine": eng.name(), "signature": sig, "detail": d.detail,
+            "format": 1, "property": prop, "engine": eng.name(), "signature": sig, "detail": d.detail, "build": build,
             "provenance": {"verif_seed": seed, "run_index": idx, "tier": if thorough {"thorough"} else {"quick"}, "runs_with_this_signature": occ.len(), "shrink_evaluations": evals},
             "scenario": final_sc,
         });
@@ -823,7 +872,8 @@ pub fn check_main(prop: &str, thorough: bool, seed: u64) -> i32 {
         "seed": seed,
         "level": eng.level(prop),
         "coverage": {
-            "evaluations": agg.runs,
+            "evaluations": agg.runs + arith.runs,
+            "overflow_checks_phase": {"what": "every chunk (quick) / every fourth chunk (thorough) is executed a second time by the simulator built with integer-overflow checks (cargo profile `arith`): the arithmetic of a dev / cargo-test artefact", "runs": arith.runs, "guest_instructions": arith.guest_steps, "signatures_seen_only_there": sig_build.iter().filter(|(_, b)| **b == "arith").map(|(s, _)| s.clone()).collect::<Vec<_>>()},
             "distinct_nontrivial": agg.hist.len(),
             "rule": eng.rule(prop),
             "samples": samples,
